@@ -132,8 +132,8 @@ impl Property for C20 {
 
     fn runs(tier: Tier) -> u64 {
         match tier {
-            Tier::Quick => 16_000,
-            Tier::Thorough => 1_600_000,
+            Tier::Quick => 40_000,
+            Tier::Thorough => 4_000_000,
         }
     }
 
@@ -227,7 +227,7 @@ impl Property for C20 {
             // (and line counts of the disassembly around round numbers: 4 header lines + one line per instruction)
             let count = *rng.pick(&[8_190u32, 8_192, 9_995, 9_996, 65_531, 65_532, 99_995, 99_996, 99_997, 131_068, 131_070, 131_071, 131_072, 131_073, 140_000, 199_996]);
             Some((count, *rng.pick(&[u32::MAX, u32::MAX, 0u32, 0x0002_0011, 0x0001_FFFF, 0x0001_0000])))
-        } else if rng.chance(1, 4000) {
+        } else if rng.chance(1, 1500) {
             // beyond 16 MiB
             let count = *rng.pick(&[2_097_149u32, 2_097_150, 2_097_152, 2_200_000]);
             Some((count, *rng.pick(&[u32::MAX, 0u32, 0x0002_0011, 0x0001_FFFF, 0x0001_0000])))
